@@ -172,6 +172,7 @@ def _triples(F, R, enum, subject_rule=None):
             R.bad(f"{short(enum)}|{v}", f"{short(enum)}::{v}: range/file/raw_text read different payload fields {got}: the reported file, position and text disagree", loc(tabs["range"][1]))
 
 
+@rule("C15", "C15.f.location-triples", floor=31)
 @rule("C09", "C09.a.location-triples", floor=31)
 def c09a(F, R):
     """for LintError, ParseError and CfgError the three DiagnosticLocation methods bind the same payload field per variant"""
